@@ -1,5 +1,5 @@
-(** C04 — '+extension', general clause: for EVERY l, e, d (at signs and colons anywhere, routes, quoting inside the extension), l@d and l+e@d both accepted get the same mailbox name; net.ParseIP only assumed to accept nothing but hex digits, dots and colons *)
-From IV Require Import Base.Bytes Model.Addr Proofs.AddrFacts Proofs.AddrScan Proofs.AddrDomain Proofs.AddrNaming Proofs.AddrPlus Proofs.AddrPlusAny.
-Theorem plus_insensitive_any : forall (parse_ip : str -> bool), (forall s, parse_ip s = true -> forallb ip_char s = true) -> forall mode l e d r r', new_recipient parse_ip mode (l ++ 64 :: d) = Some r -> new_recipient parse_ip mode (l ++ 43 :: e ++ 64 :: d) = Some r' -> r_mailbox r = r_mailbox r'.
-Proof. exact AddrPlusAny.plus_insensitive_any. Qed.
+(** C04 — '+extension', general clause: for EVERY l, e, d (at signs and colons anywhere, routes, quoting inside the extension), l@d and l+e@d both accepted get the same mailbox name *)
+From IV Require Import Base.Bytes Model.Addr Model.IpLit Model.AddrU Proofs.AddrNaming Proofs.AddrGo Proofs.IpLit.
+Theorem plus_insensitive_any : forall mode l e d r r', new_recipient go_parse_ip mode (l ++ 64 :: d) = Some r -> new_recipient go_parse_ip mode (l ++ 43 :: e ++ 64 :: d) = Some r' -> r_mailbox r = r_mailbox r'.
+Proof. exact AddrGo.plus_insensitive_any_go. Qed.
 Print Assumptions plus_insensitive_any.
